@@ -7,6 +7,7 @@ import (
 	"sort"
 	"strconv"
 	"strings"
+	"sync"
 
 	"github.com/anoideaopen/foundation/core/balance"
 	fpb "github.com/anoideaopen/foundation/proto"
@@ -42,6 +43,20 @@ func genC17(c *Ctx) error {
 	c.Notes["rule"] = "one token chaincode instance; 2-3 invocations, each on its own goroutine with its own simulated transaction: an immediate method, batchExecute with one or two pending transactions, swapDone whose completion listener runs with the context swapDone installed; every body re-obtains its context (GetStub) 1-3 times, reads its own previous write and writes a key, and is parked before each of these points; a scheduler releases the parked invocations in a random order (all interleavings of the switch points are reachable, nested and overlapping lifetimes). Observed per invocation: status, payload, complete write-set, event - compared with the same proposal run alone over the same committed state - and the keys that landed in its write-set. Non-trivial: the lifetimes of at least two invocations overlap."
 	n := c.N(150, 3000)
 	for i := 0; i < n; i++ {
+		if i == n/2 {
+			// a chaincode process lives long: goroutine ids are never reused and grow without bound.
+			// The second half of the cases runs in an "old" process (ids beyond one million).
+			var wg sync.WaitGroup
+			for k := 0; k < 1000200; k++ {
+				wg.Add(1)
+				go wg.Done()
+				if k%4096 == 0 {
+					wg.Wait()
+				}
+			}
+			wg.Wait()
+			c.Count("process_aged_past_1e6_goroutines")
+		}
 		if i%5 == 4 {
 			if err := c17Meta(c); err != nil {
 				return err
